@@ -702,6 +702,7 @@ vbi3_bit_slicer_set_params	(vbi3_bit_slicer *	bs,
 	unsigned int oversampling;
 	unsigned int data_bits;
 	unsigned int data_samples;
+	unsigned int data_end;
 	unsigned int cri_samples;
 	unsigned int skip;
 
@@ -1031,9 +1032,6 @@ vbi3_bit_slicer_set_params	(vbi3_bit_slicer *	bs,
 		goto failure;
 	}
 
-	cri_end = MIN (cri_end, samples_per_line - data_samples);
-
-	bs->cri_samples = cri_end - sample_offset;
 	bs->cri_rate = cri_rate;
 
 	bs->oversampling_rate = sampling_rate * oversampling;
@@ -1079,6 +1077,37 @@ vbi3_bit_slicer_set_params	(vbi3_bit_slicer *	bs,
 			 + bs->step * .25 + 128);
 		break;
 	}
+
+	/* The payload loop has no data end check. When the CRI ends
+	   at sample n the last data bit is read from sample
+	   n + (phase_shift + (data_bits - 1) * step) / 256 and its
+	   right neighbour for interpolation, by the low pass slicer
+	   from the 1 << LP_AVG samples after that one. The CRI search
+	   itself reads as many samples from n. We stop searching when
+	   these samples would lie beyond the end of the line. */
+	data_end = bs->phase_shift;
+	if (data_bits > 0)
+		data_end += (data_bits - 1) * bs->step;
+	data_end >>= 8;
+
+	if (low_pass_bit_slicer_Y8 == bs->func)
+		data_end += 1 + (1 << LP_AVG);
+	else
+		data_end += 2;
+
+	if (data_end > samples_per_line - sample_offset) {
+		warning (&bs->log,
+			 "%u samples_per_line too small for "
+			 "sample_offset %u + %u samples read "
+			 "after the CRI.",
+			 samples_per_line, sample_offset, data_end);
+		goto failure;
+	}
+
+	cri_end = MIN (cri_end, samples_per_line - data_samples);
+	cri_end = MIN (cri_end, samples_per_line - data_end + 1);
+
+	bs->cri_samples = cri_end - sample_offset;
 
 	return TRUE;
 
